@@ -103,3 +103,19 @@ func undischargedPanic(x int) int {
 func spawns(ch chan int) {
 	go func() { ch <- 1 }()
 }
+
+type item struct{ Oids []int }
+
+// LINT-REUSE: the slice stored in an earlier iteration is truncated and refilled.
+func reuseSlice(in [][]int) []item {
+	out := make([]item, len(in))
+	buf := make([]int, 0, 8)
+	for i, xs := range in {
+		buf = buf[:0]
+		for _, x := range xs {
+			buf = append(buf, x)
+		}
+		out[i] = item{Oids: buf}
+	}
+	return out
+}
